@@ -88,6 +88,50 @@ theorem mem_keyUnion {x : Int} {o n : List Int} : x ∈ keyUnion o n ↔ x ∈ o
   unfold keyUnion
   rw [mem_foldr_insertKey, List.mem_append]
 
+theorem sorted_subset_length : ∀ {l₂ l₁ : List Int}, l₁.Pairwise (· < ·) → l₂.Pairwise (· < ·) →
+    (∀ x, x ∈ l₁ → x ∈ l₂) → l₁.length ≤ l₂.length
+  | [], l₁, _, _, h => by
+    cases l₁ with
+    | nil => simp
+    | cons a t => have := h a (by simp); simp at this
+  | b :: u, [], _, _, _ => by simp
+  | b :: u, a :: t, h₁, h₂, h => by
+    have h₁' := List.pairwise_cons.1 h₁
+    have h₂' := List.pairwise_cons.1 h₂
+    have ha := h a (by simp)
+    rw [List.mem_cons] at ha
+    rcases ha with rfl | ha
+    · have : t.length ≤ u.length := by
+        apply sorted_subset_length h₁'.2 h₂'.2
+        intro x hx
+        have := h x (by simp [hx])
+        rw [List.mem_cons] at this
+        rcases this with rfl | this
+        · have := h₁'.1 x hx; omega
+        · exact this
+      simp only [List.length_cons]; omega
+    · have : (a :: t).length ≤ u.length := by
+        apply sorted_subset_length h₁ h₂'.2
+        intro x hx
+        have hxl := h x hx
+        rw [List.mem_cons] at hxl
+        rcases hxl with rfl | hxl
+        · rw [List.mem_cons] at hx
+          rcases hx with rfl | hx
+          · exact ha
+          · have := h₁'.1 x hx; have := h₂'.1 a ha; omega
+        · exact hxl
+      simp only [List.length_cons] at this ⊢; omega
+
+theorem keyUnion_length_mono {o₁ n₁ o₂ n₂ : List Int} (h : ∀ x, x ∈ o₁ ∨ x ∈ n₁ → x ∈ o₂ ∨ x ∈ n₂) :
+    (keyUnion o₁ n₁).length ≤ (keyUnion o₂ n₂).length :=
+  sorted_subset_length (keyUnion_sorted _ _) (keyUnion_sorted _ _)
+    (fun x hx => mem_keyUnion.2 (h x (mem_keyUnion.1 hx)))
+
+theorem indices_length (o n : List Int) :
+    (indices o n).1.length = (keyUnion o n).length ∧ (indices o n).2.length = (keyUnion o n).length := by
+  simp [indices]
+
 /-- the last block of a table: `m` old versions of key `k`, and the snapshot row of `k` iff `b` -/
 def snocNew (n : List Int) (b : Bool) (k : Int) : List Int := n ++ (if b then [k] else [])
 
